@@ -19,6 +19,14 @@ claimed = {
    text="Seeded search over open/close/reopen sequences of GET streams of one session by a raw reference peer, interleaved at every lock, channel and write point of the real handleGet with concurrent SendNotification calls. Oracle: a send that runs entirely while one stream owns the session (its headers were received, it was not closed, no open/close in flight) must succeed and be delivered exactly once on that stream's connection; after the dust settles a send succeeds iff a stream is open; an older stream is closed once a newer one exists.",
    note="Ownership is judged from the peer's point of view using the simulator's global step order; delivery is read from the bytes written on each simulated connection.",
    tech=TECH+"stream-ownership oracle with targeted schedules at handleGet's yield points"),
+ "C10": dict(cat="exploration", ref="DESIGN.md §6 C10",
+   text="Seeded search over numbers (0-6 quick, 0-40 thorough), kinds (progress/log/custom), sizes (0-70 KB), _meta presence and timings (same instant or 1-3 ms apart) of notifications a tool handler emits over POST-SSE, with 1-3 concurrent calls on one real library client, handlers registered for all / some / no methods, JSON and stateless modes, under short reads and delivery delays. Oracle: per call the handler-recorded sequence equals the emitted sequence restricted to registered methods (method, params and _meta after JSON normalisation), nothing arrives after CallTool returned, the result is the call's own, and the id: lines of each SSE stream on the wire are pairwise distinct.",
+   note="Notification senders are used from the handler's own goroutine only (concurrent use of one request's sender is not claimed).",
+   tech=TECH+"sequence-equality oracle and wire-level event-id uniqueness"),
+ "C05": dict(cat="exploration", ref="DESIGN.md §6 C05",
+   text="Seeded search over 1-4 sessions (real library clients with notification handlers and roots providers, and raw reference peers), 1-3 concurrent server-side sender tasks issuing SendNotification / BroadcastNotification / SendFilteredNotification with per-send nonces and payloads up to 66 KB, tool handlers issuing ListRoots inside their session, and a forging peer posting answers with guessed request ids from another session; on the Streamable server and (SendNotification, ListRoots) on the legacy SSE server. Oracle on the wire record: exactly-once delivery on the addressed session's stream only, per-sender order, reported counts equal sessions actually reached, ListRoots returns the roots of its own session (never a forged answer), pending tables empty after the drain.",
+   note="Liveness part only from a quiescent state (every session's stream open and registered, no fault); sessions whose stream closed during the run are excluded from the must-succeed checks but not from the isolation checks.",
+   tech=TECH+"wire-record isolation/accounting oracle with a forging peer"),
 }
 NA = {
  "C18": "pure relation between two translators (schema generator vs encoding/json) over types and values: no schedule, clock, fault or interleaving for a simulator to decide (DESIGN.md §7)",
